@@ -39,6 +39,8 @@ def cases(tier, seed):
         cfg["finite_diff_rel_step"] = gen.pick(rng, [None, None, 1e-7])
         cfg["cb"] = "never"
         e2e.vary_rare_parameters(rng, cfg)
+        if i % 4 == 2:
+            cfg["eps_SY"] = float(gen.pick(rng, [0.0, 1e-300, 1e-300, 1e-40]))  # a curvature threshold far below machine precision (no business of the box)
         if i % 8 == 3:
             cfg["x0_dtype"] = str(gen.pick(rng, ["float32", "float32", "float16"]))  # a start vector of lower precision
         if i % 5 == 1:
@@ -64,6 +66,13 @@ def cases(tier, seed):
         cfg["jac"] = gen.pick(rng, ["callable", "callable", None, "2-point"])
         cfg["cb"] = "never"
         yield {"problem": {"n": int(rng.integers(1, 4)), "seed": int(rng.integers(0, 2**31 - 1))}, "cfg": cfg, "huge": True, "edit_bounds": False}
+    for i in range(1800 if tier == "quick" else 30000):
+        # long runs inside two-sided boxes from interior starts under a curvature threshold far below machine precision: many iterations
+        # whose step is cut by a bound (the line search then works at the end of its feasible interval)
+        ps = gen.rand_spec(rng, ("qp", "qp_quartic", "oscillating", "rastrigin", "styblinski_tang"), nmax=8, nmin=2, boxes=("boxed", "boxed", "narrow", "unit"), starts=("interior",))
+        yield {"problem": ps, "edit_bounds": False,
+               "cfg": {"jac": "callable", "maxcor": int(rng.integers(1, 11)), "maxls": 20, "maxiter": 100, "maxfun": 15000, "ftol": 0.0, "gtol": 1e-9, "cb": "never",
+                       "eps_SY": float(gen.pick(rng, [0.0, 1e-300, 1e-300, 1e-40]))}}
     for i in range(150 if tier == "quick" else 4000):
         cfg = e2e.rand_cfg(rng)
         cfg.update(jac="callable", cb="never", maxls=20, maxiter=int(rng.integers(3, 25)), maxfun=15000)
